@@ -91,7 +91,7 @@ func c15Supplement(c *engine.SuppCtx) *engine.SuppResult {
 	if _, err := os.Stat(exe); err != nil {
 		return &engine.SuppResult{Error: "race binary missing: " + err.Error()}
 	}
-	iters := 150
+	iters := 100
 	if c.Tier == "thorough" {
 		iters = 1500
 	}
@@ -100,9 +100,17 @@ func c15Supplement(c *engine.SuppCtx) *engine.SuppResult {
 		i    int
 	}
 	var all []sc
+	var idxs []int // index of each selected case in the scenario*case axis of the aux entry point
+	k := 0
 	for _, s := range c15Scenarios {
 		for i := 0; i < s.cases(c.Tier); i++ {
-			all = append(all, sc{s.name, i})
+			// quick: every 6th consumer sequence of S1 (they differ in the consumer's
+			// calls, not in the goroutines involved); thorough: all of them
+			if c.Tier == "thorough" || s.name != "S1-asyncPages" || i%6 == 0 {
+				all = append(all, sc{s.name, i})
+				idxs = append(idxs, k)
+			}
+			k++
 		}
 	}
 	res := &engine.SuppResult{Coverage: map[string]any{
@@ -115,7 +123,8 @@ func c15Supplement(c *engine.SuppCtx) *engine.SuppResult {
 	sem := make(chan struct{}, 4)
 	ok := 0
 	start := time.Now()
-	for idx, s := range all {
+	for j, s := range all {
+		idx := idxs[j]
 		wg.Add(1)
 		sem <- struct{}{}
 		go func(idx int, s sc) {
